@@ -467,7 +467,7 @@ registry.register("C09", {
     "assumptions": [
         "durations below 2^40 ns, timestamps below 2^50 us, backoff below 2^20: the u64 microsecond product in pto_period does not overflow (the harness is built with overflow checks and would panic)",
         "`Duration::as_nanos() as u64` truncations are not modelled (durations above 584 years)",
-        "manager: every call the manager makes on the congestion controller (on_packet_sent / on_ack / on_packet_lost / on_packet_discarded, with all arguments) is recorded in order and compared with the model; the judge demands the op time in on_packet_sent.time_sent, on_ack.ack_receive_time and on_packet_lost.timestamp; on_mtu_update and on_rtt_update are not recorded",
+        "manager: every call the manager makes on the congestion controller (on_packet_sent / on_ack / on_packet_lost / on_packet_discarded, with all arguments) is recorded in order and compared with the model; the judge demands the op time in on_packet_sent.time_sent, on_ack.ack_receive_time and on_packet_lost.timestamp; on_mtu_update and on_rtt_update are not recorded; every Context::on_packet_ack(timestamp, range) call is recorded in the same log and must lie inside one range of the ACK frame being processed (on_new_packet_ack hulls and on_packet_loss packet numbers are the other two observable lists)",
         "manager: the driver (verif hook) completes an open transmission burst before it hands an ACK frame, a timeout or a discard to the manager, rejects ACK frames whose largest acknowledged exceeds the last packet number sent (as the packet space does), keeps both paths validated and not amplification limited, ECN off, no MTU probes, PTO jitter 0; Initial/Handshake spaces and the client use one path (the driver forces path 0), a discard in ApplicationData and a Retry on a server are ignored",
         "manager: the judgement proved to accept every run of the model is the one with one timer granularity of slack on a lost packet's age (Recovery.judge_tol, all histories incl. discard and Retry); the property judgement proper (Recovery.judge) differs from it only in that comparison and is proved to reject the model on the recorded finding's input",
     ],
